@@ -3,7 +3,7 @@
    Embed), flax/linen/pooling.py (pool / avg_pool / max_pool / min_pool, one spatial dimension) and the statistics of
    flax/linen/normalization.py (_compute_stats with mask, BatchNorm's running averages).  Values are integers (the
    harness feeds integer-valued float64 arrays); statistics are rationals.  Definitions only. *)
-From Coq Require Import QArith.
+From Coq Require Import QArith Qabs.
 From Flaxm Require Import Lib.Harness.
 Open Scope Z_scope.
 
@@ -218,3 +218,20 @@ Definition stats (xs : list Z) (mask : list bool) : Q * Q :=
   let v := valid xs mask in (qmean v, qmean2 v - qmean v * qmean v).
 (* BatchNorm in training mode stores momentum * old + (1 - momentum) * batch statistic *)
 Definition running (momentum old batch : Q) : Q := momentum * old + (1 - momentum) * batch.
+
+(* ---------------- the normalised output, without square roots ---------------- *)
+(* y = (x - mean) / sqrt(var + eps) * scale + bias  is the root of
+   (y - bias)^2 * (var + eps) = scale^2 * (x - mean)^2  whose sign is that of scale * (x - mean).
+   `tol` is the relative tolerance of the comparison (0 for the exact statement). *)
+Definition qclose (tol x y : Q) : bool := Qle_bool (Qabs (x - y)) (tol * (1 + Qabs y)).
+Definition norm_ok (tol eps : Q) (x mean var scale bias y : Q) : bool :=
+  qclose tol ((y - bias) * (y - bias) * (var + eps)) (scale * scale * ((x - mean) * (x - mean)))
+  && Qle_bool (- tol) ((y - bias) * scale * (x - mean)).
+(* LayerNorm / GroupNorm / InstanceNorm over one reduction group (the elements that share their statistics), RMSNorm with
+   use_mean = false: every unmasked element is normalised with the group's masked statistics *)
+Definition group_norm_ok (tol eps : Q) (use_mean : bool) (xs : list Z) (mask : list bool) (scale bias ys : list Q) : bool :=
+  let v := valid xs mask in
+  let mean := if use_mean then qmean v else 0 in
+  let var := if use_mean then qmean2 v - qmean v * qmean v else qmean2 v in
+  forallb (fun t => let '(x, m, s, b, y) := t in negb m || norm_ok tol eps (inject_Z x) mean var s b y)
+          (combine (combine (combine (combine xs mask) scale) bias) ys).
